@@ -121,6 +121,11 @@ def edit_torrent(metafile: str, args: dict) -> dict:
         info = dict(sorted(info.items()))
     meta["info"] = info
     meta = dict(sorted(meta.items()))
-    os.remove(metafile)
-    pyben.dump(meta, metafile)
+    temp = str(metafile) + ".part"
+    try:
+        pyben.dump(meta, temp)
+        os.replace(temp, metafile)
+    finally:
+        if os.path.exists(temp):
+            os.remove(temp)
     return meta
